@@ -2,8 +2,7 @@ package main
 
 // C20 (deepening round) — facts the lookup-path model lean/XlModel/RefApi.lean is a transcription
 // of: for every cell-name taking API the model covers, the ordered list of reference-handling
-// callees in its body (its "path skeleton"), and the source patterns behind the three open
-// findings. The skeletons are emitted to Generated/FactsC20.lean and compared HERE with the
+// callees in its body (its "path skeleton"), and the source patterns of the (repaired) range decoder. The skeletons are emitted to Generated/FactsC20.lean and compared HERE with the
 // skeleton the model was written for: a difference is reported through fail(), which makes the
 // C20 check report a broken proof obligation without breaking the Lean build of the properties
 // that import XlModel.Props.C20 (C01, C07, C11, C14).
@@ -49,7 +48,8 @@ var c20Expect = [][4]string{
 	{"File", "SetCellHyperLink", "SplitCellName mergeCellsParser", "pathLinkSet"},
 	{"File", "GetCellHyperLink", "SplitCellName CellNameToCoordinates CoordinatesToCellName", "pathLinkGet"},
 	{"File", "AddComment", "addVMLObject", "pathCommentAdd"},
-	{"File", "DeleteComment", "deleteFormControl", "pathCommentDel"},
+	{"File", "addComment", "CellNameToCoordinates CoordinatesToCellName", "pathCommentAdd"},
+	{"File", "DeleteComment", "CellNameToCoordinates CoordinatesToCellName deleteFormControl", "pathCommentDel"},
 	{"File", "deleteFormControl", "CellNameToCoordinates", "pathDirect"},
 	{"File", "MergeCell", "rangeRefToCoordinates CoordinatesToCellName CoordinatesToCellName", "mergeCellRef"},
 	{"File", "UnmergeCell", "rangeRefToCoordinates rangeRefToCoordinates", "mergeCellRef"},
@@ -59,12 +59,10 @@ var c20Expect = [][4]string{
 // function, source pattern (regular expression over the whitespace-squashed source; identifiers
 // of locals and parameters are wildcards so that a rename is not reported) behind the open findings
 var c20Patterns = [][3]string{
-	{"", "rangeRefToCoordinates", `strings\.ReplaceAll\(\w+, "\$", ""\)`},
-	{"", "rangeRefToCoordinates", `len\(\w+\) < 2`},
+	{"", "rangeRefToCoordinates", `strings\.Split\(\w+, ":"\)`},
+	{"", "rangeRefToCoordinates", `len\(\w+\) != 2`},
 	{"File", "MergeCell", `rangeRefToCoordinates\(\w+ \+ ":" \+ \w+\)`},
 	{"File", "UnmergeCell", `rangeRefToCoordinates\(\w+ \+ ":" \+ \w+\)`},
-	{"File", "addComment", `Ref: [\w.]+\.Cell\b`},
-	{"File", "DeleteComment", `\.Ref != \w+`},
 }
 
 func c20Skeleton(fd *ast.FuncDecl) string {
